@@ -974,6 +974,35 @@ fn reporter_faults(ctx: &Ctx) {
 }
 
 fn precision_grid(ctx: &Ctx) {
+    // HMC with a single chain, and with several chains that sit on one point and reject (live R-hat undefined): the call
+    // must still succeed with run's draws
+    for (n, eps, label) in [(1usize, 0.2f64, "1 chain"), (2, 0.2, "2 chains"), (3, 1e6, "3 chains, every proposal rejected")] {
+        let case = json!({"layer": "precision", "sampler": "HMC", "types": "f32 / NdArray<f32>", "config": label});
+        ctx.evals(1);
+        ctx.transitions(2);
+        ctx.state(hash_str(&case.to_string()));
+        let mk = || {
+            let mut s = hmc_gauss_build::<f32, BF32>(n, Some(5));
+            s.step_size = eps as f32;
+            if eps > 1.0 {
+                s.positions = t2::<BF32>(&vec![vec![0.5, 0.5]; n]);
+            }
+            s
+        };
+        let a = catch(|| tensor_bits(&mk().run(5, 1)));
+        let b = catch(|| mk().run_progress(5, 1).map(|(t, _)| tensor_bits(&t)).map_err(|e| e.to_string()));
+        match (a, b) {
+            (Ok(a), Ok(Ok(b))) => {
+                if a != b {
+                    ctx.violation(Violation::new("C10:draws-differ(HMC)", format!("HMC::run_progress returns other draws than run ({label})"), case.clone()));
+                } else {
+                    ctx.outcome("precision-ok", 1);
+                }
+            }
+            (_, Ok(Err(e))) => ctx.violation(Violation::new("C10:error(HMC::run_progress)", format!("HMC::run_progress returned Err with {label}: {e}"), case.clone())),
+            (Err(m), _) | (_, Err(m)) => ctx.violation(Violation::new("C10:panic(HMC)", format!("HMC with {label}: {m}"), case.clone())),
+        }
+    }
     macro_rules! hmc_case {
         ($T:ty, $B:ty, $name:expr) => {{
             let case = json!({"layer": "precision", "sampler": "HMC", "types": $name});
